@@ -5,6 +5,7 @@ import (
 	"cmp"
 	"fmt"
 	"slices"
+	"unicode/utf8"
 )
 
 type FindOptimizations struct {
@@ -648,7 +649,7 @@ func findFixedDistanceString(fixedDistanceSets []FixedDistanceSet) *FixedDistanc
 			if i < len(fixedDistanceSets) {
 				chars = fixedDistanceSets[i].Chars
 			}
-			invalidChars := len(chars) != 1 || fixedDistanceSets[i].Negated
+			invalidChars := len(chars) != 1 || fixedDistanceSets[i].Negated || !utf8.ValidRune(chars[0])
 
 			// If the current set ends a sequence (or we've walked off the end), see whether
 			// what we've gathered constitues a valid string, and if it's better than the
